@@ -561,6 +561,7 @@ func (e *Engine) exec(st *State, f *Frame, instr ssa.Instruction) {
 						it.Vals = append(it.Vals, m.Vals[i])
 					}
 				}
+				e.permuteRange(st, f, it)
 			}
 		case StrV:
 			if !xv.Conc {
@@ -973,3 +974,53 @@ type CallCtx struct {
 }
 
 type NativeFn func(e *Engine, st *State, c *CallCtx) (Value, bool)
+
+// permuteRange makes the iteration order of a map range a symbolic choice (Go leaves it unspecified)
+// in the functions named by Config.MapOrder: every permutation of up to four live entries is one path.
+// Elsewhere maps are ranged in insertion order.
+func (e *Engine) permuteRange(st *State, f *Frame, it *RangeIter) {
+	n := len(it.Keys)
+	if n < 2 || !e.Cfg.MapOrder[f.fn.String()] {
+		return
+	}
+	if n > 4 {
+		panic(unsupported("map order permutation over more than 4 entries"))
+	}
+	var x *smt.Term
+	if m, ok := st.memo["maporder"]; ok {
+		x = m.(*smt.Term)
+	} else {
+		x = e.C.Var("maporder", smt.BV(8))
+		if st.memo == nil {
+			st.memo = map[string]interface{}{}
+		}
+		st.memo["maporder"] = x
+	}
+	perms := permutations(n)
+	pick := perms[len(perms)-1]
+	for k := 0; k < len(perms)-1; k++ {
+		if e.branch(st, e.C.Eq(x, e.C.Const(uint64(k), 8))) {
+			pick = perms[k]
+			break
+		}
+	}
+	keys, vals := make([]Value, n), make([]Value, n)
+	for i, j := range pick {
+		keys[i], vals[i] = it.Keys[j], it.Vals[j]
+	}
+	it.Keys, it.Vals = keys, vals
+}
+
+func permutations(n int) [][]int {
+	if n == 0 {
+		return [][]int{{}}
+	}
+	var out [][]int
+	for _, p := range permutations(n - 1) {
+		for pos := n - 1; pos >= 0; pos-- {
+			q := append(append(append([]int{}, p[:pos]...), n-1), p[pos:]...)
+			out = append(out, q)
+		}
+	}
+	return out
+}
